@@ -357,6 +357,18 @@ class Ctx:
                 self.count("disagreements_beyond_20")
         return ok
 
+    def contract(self, name, residual, tol, what=None):
+        """the theorems quantify over every output of LAPACK/FFT that satisfies a stated contract (exact factorisation,
+        orthonormal columns, ...): record that the output actually recorded in this run satisfies it to rounding.
+        A recorded output that does not is reported like a correspondence that no longer checks."""
+        self.count(f"contract_{name}_checked")
+        r = float(residual)
+        self.dist[f"margin_contract_{name}"] = max(self.dist.get(f"margin_contract_{name}", 0.0), r if r == r else float("inf"))
+        ok = r <= tol
+        if not ok:
+            self.corr(f"recorded-factor contract[{name}]", False, {"what": what, "residual": r, "tolerance": tol}, None, None)
+        return ok
+
     def sample(self, s):
         if len(self.samples) < 6:
             self.samples.append(s)
